@@ -64,6 +64,8 @@ func checkC10(c *Ctx) {
 	r.Rule("R10.3", "inheritance at creation: newentry stores useJSON/useColor/level as (detached default | the parent's value) selected by parent != nil, the defaults being false/true/GetLevel(); owner is the parent parameter; nothing else is read from the parent")
 	r.Rule("R10.4", "name index: newChildLogger returns the receiver's existing items[name] or stores newentry(receiver, ...) under that same key and returns it; an empty/absent name gets a generated one; WithSkip(n)'s child name depends on n; the package-level New passes a nil parent")
 	r.Rule("R10.5", "navigation: Parent returns owner; Root follows owner to nil; Each visits the receiver at depth 0 and forEachLogger visits each child exactly once at depth+1")
+	r.Rule("R11.1", "(shared with C11) a child 'carrying the new setting' carries the format the mode call denotes: the transition functions of SetJSONMode/SetColorMode equal the documented table")
+	r.Rule("R10.8", "package-level namesakes: a package-level function that has a namesake among the default logger's methods and calls a method on the default logger calls that namesake (SetSkip sets, WithSkip derives)")
 	r.Rule("R10.7", "argument lists belong to the caller: no function of the package stores into an element of its variadic or []any parameter (directly, through a re-slice or a join), so New(list...) called twice with one list creates two loggers")
 	r.Rule("R10.6", "default level: init stores WarnLevel to the package default before the environment-dependent overrides, ResetLevel restores WarnLevel, GetLevel returns that variable and newentry's detached default is GetLevel()")
 	r.Assume("option closures (Opt) are applied by newentry to the logger under construction only")
@@ -84,6 +86,8 @@ func checkC10(c *Ctx) {
 		freshChildren(c, p, m, "R10.4", nil)
 		optionsInOrder(c, p, "R10.3")
 		callerArgsUntouched(c, p, "R10.7")
+		packageNamesakes(c, p, "R10.8")
+		c11Transitions(c, p, m)
 	}
 	c.Floor["R10.1"] = 40
 	c.Floor["R10.2"] = 30
